@@ -14,7 +14,7 @@ use spl_pod::primitives::PodBool;
 use spl_tlv_account_resolution::{account::ExtraAccountMeta, pubkey_data::PubkeyData, seeds::Seed, state::ExtraAccountMetaList};
 use spl_type_length_value::state::{TlvState, TlvStateBorrowed};
 
-pub const MTAGS: [[u8; 8]; 4] = [[0x11; 8], [0x22; 8], [0x11, 0x11, 0x11, 0x11, 0x11, 0x11, 0x11, 0x33], [0x44, 0, 0, 0, 0, 0, 0, 0x44]];
+pub const MTAGS: [[u8; 8]; 4] = [[0x11; 8], [0x00, 0x22, 0x22, 0x22, 0x22, 0x22, 0x22, 0x00], [0x11, 0x11, 0x11, 0x11, 0x11, 0x11, 0x11, 0x33], [0x44, 0, 0, 0, 0, 0, 0, 0x44]];
 pub struct MT0;
 pub struct MT1;
 pub struct MT2;
@@ -188,8 +188,11 @@ pub fn gen_acct(rng: &mut Rng, w: &World) -> Acct {
 }
 fn small_idx(rng: &mut Rng, n: usize) -> u8 {
     // mostly in range, sometimes one past / far
+    if n > 100 && rng.chance(1, 2) {
+        return *rng.pick(&[126u8, 127, 128, 129, 199, 254, 255]);
+    }
     match rng.below(8) {
-        0 => n as u8,
+        0 => n.min(255) as u8,
         1 => rng.byte(),
         _ => rng.below(n.max(1) as u64) as u8,
     }
@@ -327,8 +330,30 @@ pub fn run_c05(ctx: &Ctx) -> Report {
     for k in 0..(n_coq + n_mon) {
         let to_coq = k < n_coq;
         let w = gen_world(&mut rng);
-        let na = rng.below(7) as usize;
-        let accts: Vec<(Pubkey, Option<Vec<u8>>)> = (0..na).map(|_| { let a = gen_acct(&mut rng, &w); (a.key, if rng.chance(1, 6) { None } else { Some(a.data) }) }).collect();
+        // account lists are short, except every 40th monitor-only scenario: up to 256 accounts, so
+        // that indices 127/128/255 refer to something
+        let na = if !to_coq && k % 40 == 0 { *rng.pick(&[127usize, 128, 129, 200, 255, 256]) } else { rng.below(7) as usize };
+        if na > 100 {
+            rep.count("accounts:>100");
+        }
+        let mut w = w;
+        let mut accts: Vec<(Pubkey, Option<Vec<u8>>)> = (0..na).map(|_| { let a = gen_acct(&mut rng, &w); (a.key, if rng.chance(1, 6) { None } else { Some(a.data) }) }).collect();
+        // instruction / account data whose length crosses 2^16 (and 2^24): a multiple of 65536 plus a little
+        if !to_coq && k % 37 == 5 {
+            let big_len = |rng: &mut Rng| (if rng.chance(1, 12) { 160usize } else { rng.range(1, 2) as usize }) * 65536 + *rng.pick(&[0usize, 1, 7, 33, 300]);
+            // only the first 600 bytes can be addressed by a u8 index + u8 length: random there, a pattern behind
+            let big_bytes = |rng: &mut Rng, l: usize| { let mut v = rng.bytes(600.min(l)); v.resize(l, 0xa5); v };
+            rep.count("data:>=64KiB");
+            if rng.chance(1, 2) {
+                let l = big_len(&mut rng);
+                w.ix = big_bytes(&mut rng, l);
+            }
+            if !accts.is_empty() && rng.chance(2, 3) {
+                let i = rng.below(accts.len().min(6) as u64) as usize;
+                let l = big_len(&mut rng);
+                accts[i].1 = Some(big_bytes(&mut rng, l));
+            }
+        }
         let dls: Vec<usize> = accts.iter().map(|a| a.1.as_ref().map(|d| d.len()).unwrap_or(0)).collect();
         let e = gen_extra(&mut rng, &w, na, &dls);
         // PDA-heavy cases are expensive inside Coq: cap them
@@ -382,8 +407,35 @@ pub fn run_c05(ctx: &Ctx) -> Report {
         let idx = rng.edge_byte();
         let r2 = catch(|| ExtraAccountMeta::new_external_pda_with_seeds(idx, &[], s, wr));
         rep.count("ctor:external");
-        if r2.is_ok() != (idx < 128) || matches!(&r2, Res::Ok(e) if e.discriminator != idx + 128) {
-            rep.violate("ctor-external", "external-PDA constructor must store index+128 and reject indices >= 128", serde_json::json!({"index": idx}).to_string());
+        if r2.is_ok() != (idx < 128) || matches!(&r2, Res::Ok(e) if e.discriminator != idx + 128 || e.is_signer.0 != s as u8 || e.is_writable.0 != wr as u8 || e.address_config != [0u8; 32]) {
+            rep.violate("ctor-external", "external-PDA constructor must store index+128, the packed seeds and the flags, and reject indices >= 128", serde_json::json!({"index": idx, "signer": s, "writable": wr}).to_string());
+        }
+        // the same with a non-empty seed list: identical to the own-program constructor except for the kind byte
+        if let (Res::Ok(own), true) = (&r, idx < 128) {
+            let r3 = catch(|| ExtraAccountMeta::new_external_pda_with_seeds(idx, &seeds, s, wr));
+            if !matches!(&r3, Res::Ok(e) if e.discriminator == idx + 128 && e.address_config == own.address_config && e.is_signer.0 == s as u8 && e.is_writable.0 == wr as u8) {
+                rep.violate("ctor-external", "external-PDA constructor does not store exactly the seed list and the flags", serde_json::json!({"index": idx, "seeds": format!("{:?}", seeds), "signer": s, "writable": wr}).to_string());
+            }
+        }
+        // fixed address
+        let key = Pubkey::new_from_array(if rng.chance(1, 8) { [0u8; 32] } else { rng.bytes(32).try_into().unwrap() });
+        let r4 = catch(|| ExtraAccountMeta::new_with_pubkey(&key, s, wr));
+        rep.count("ctor:pubkey");
+        if !matches!(&r4, Res::Ok(e) if e.discriminator == 0 && e.address_config == key.to_bytes() && e.is_signer.0 == s as u8 && e.is_writable.0 == wr as u8) {
+            rep.violate("ctor-pubkey", "new_with_pubkey must store kind 0, the key and the flags", serde_json::json!({"key": key.to_string(), "signer": s, "writable": wr, "observed": format!("{:?}", r4.map(|e| bytemuck::bytes_of(&e).to_vec()))}).to_string());
+        }
+        // key taken from data
+        let kd = if rng.chance(1, 2) { PubkeyData::InstructionData { index: rng.edge_byte() } } else { PubkeyData::AccountData { account_index: rng.edge_byte(), data_index: rng.edge_byte() } };
+        let r5 = catch(|| ExtraAccountMeta::new_with_pubkey_data(&kd, s, wr));
+        rep.count("ctor:key-data");
+        let mut want_cfg = [0u8; 32];
+        match &kd {
+            PubkeyData::InstructionData { index } => { want_cfg[0] = 1; want_cfg[1] = *index; }
+            PubkeyData::AccountData { account_index, data_index } => { want_cfg[0] = 2; want_cfg[1] = *account_index; want_cfg[2] = *data_index; }
+            _ => {}
+        }
+        if !matches!(&r5, Res::Ok(e) if e.discriminator == 2 && e.address_config == want_cfg && e.is_signer.0 == s as u8 && e.is_writable.0 == wr as u8) {
+            rep.violate("ctor-key-data", "new_with_pubkey_data must store kind 2, the packed key-data config and the flags", serde_json::json!({"config": format!("{:?}", kd), "signer": s, "writable": wr, "observed": format!("{:?}", r5.map(|e| bytemuck::bytes_of(&e).to_vec()))}).to_string());
         }
         let m = AccountMeta { pubkey: Pubkey::new_from_array(rng.bytes(32).try_into().unwrap()), is_signer: s, is_writable: wr };
         let e = ExtraAccountMeta::from(&m);
@@ -827,7 +879,7 @@ pub fn run_c12(ctx: &Ctx) -> Report {
     rep.expect_classes(&["init:ok", "init:err", "update:ok", "update:err", "reload:ok", "reload:err", "exact-size", "one-byte-less", "malformed"]);
     let mut rng = Rng::new(ctx.seed.wrapping_mul(229).wrapping_add(12));
     // exact size: succeeds; one byte less fails
-    for n in 0..=8usize {
+    for n in (0..=8usize).chain([255usize, 256, 257, 300, 1880].into_iter()) {
         let ms: Vec<ExtraAccountMeta> = (0..n).map(|_| rand_extra(&mut rng)).collect();
         let sz = ExtraAccountMetaList::size_of(n).unwrap();
         rep.case(format!("CSizeOf {} (ROk {})", n, sz), true);
@@ -853,7 +905,11 @@ pub fn run_c12(ctx: &Ctx) -> Report {
         let to_coq = k < n_coq;
         let ntags = rng.range(1, 4) as usize;
         // plan list lengths, then a buffer around the total advertised size
-        let lens: Vec<usize> = (0..ntags).map(|_| rng.below(7) as usize).collect();
+        let big = !to_coq && k % 50 == 0; // list lengths across the u8 limit (monitor only)
+        if big {
+            rep.count("lists:>=255-configs");
+        }
+        let lens: Vec<usize> = (0..ntags).map(|_| if big { *rng.pick(&[254usize, 255, 256, 257, 300]) } else { rng.below(7) as usize }).collect();
         let total: usize = lens.iter().map(|l| 16 + 35 * l).sum();
         let n = match rng.below(6) { 0 => total.saturating_sub(1), 1 => total, 2 => total + 1, 3 => total + 40, 4 => rng.below(total as u64 + 1) as usize, _ => total + rng.below(80) as usize };
         let mut buf = vec![0u8; n];
